@@ -67,16 +67,20 @@ def check_painted(specs, ds, tf):
 '''
 
 
-def _fn(name, specs, painted=False, absent_idx=(), fasta_like=False):
-    """specs: list of (scaffold, kinds).  Symbolic: all lengths, rounding d per scaffold, tf, fr"""
+def _fn(name, specs, painted=False, absent_idx=(), fasta_like=False, sym_strands=False):
+    """specs: list of (scaffold, kinds).  Symbolic: all lengths, rounding d per scaffold, tf, fr (and contig strands)"""
     args, pre, spec_src, ds, pres = [], [], [], [], []
     for si, (sname, kinds) in enumerate(specs):
         lens = []
+        sts = []
         for ri, k in enumerate(kinds):
             v = f"{'l' if k == 'F' else 'g'}{si}_{ri}"
             args.append(f"{v}: int")
             pre.append(f"{v} >= 1")
             lens.append(v)
+            if k == "F" and sym_strands:
+                args.append(f"cs{si}_{ri}: bool")
+                sts.append(f"(1 if cs{si}_{ri} else -1)")
         total = " + ".join(lens)
         last = lens[-1]
         args.append(f"d{si}: int")
@@ -90,7 +94,7 @@ def _fn(name, specs, painted=False, absent_idx=(), fasta_like=False):
         else:
             pres.append("True")
             pre.append(f"{last} >= tf + fr")
-        spec_src.append(f'("{sname}", "{kinds}", ({", ".join(lens)},))')
+        spec_src.append(f'("{sname}", "{kinds}", ({", ".join(lens)},)' + (f', ({", ".join(sts)},))' if sym_strands else ")"))
     args += ["tf: int", "fr: int"]
     pre_lines = ["tf >= 1 and 0 <= fr <= 1"] + pre
     body = (f"check_painted([{', '.join(spec_src)}], [{', '.join(ds)}], tf)" if painted
@@ -115,6 +119,9 @@ ENC = ("BuildAssembly.remap_to_input_assembly", "BuildAssembly.find_assembly_ove
 
 QUICK = [
     ("unpainted_FGF_F", [("S1", "FGF"), ("S2", "F")], False, (), False),
+    ("unpainted_mixed_strands_FGF_FF", [("S1", "FGF"), ("S2", "FF")], False, (), False, True),
+    ("painted_mixed_strands_FGF_FF", [("S1", "FGF"), ("S2", "FF")], True, (), False, True),
+    ("unpainted_fasta_like_mixed_strands", [("S1", "FFGF")], False, (), True, True),
     ("unpainted_FGF_FF_subtexel_FF", [("S1", "FGF"), ("S2", "FF"), ("S3", "FF")], False, (2,), False),
     ("painted_FGF_FF", [("S1", "FGF"), ("S2", "FF")], True, (), False),
     ("unpainted_fasta_like_FGF_FF", [("S1", "FGF"), ("S2", "FF")], False, (), True),
@@ -130,13 +137,14 @@ THOROUGH = [
 def conditions(tier):
     out = []
     for group, tname, to in ((QUICK, "quick", 600), (THOROUGH, "thorough", 3000)):
-        src = HEAD + "".join(_fn("t_" + n, sp, p, ab, fl) for (n, sp, p, ab, fl) in group)
-        for (n, sp, p, ab, fl) in group:
+        group = [g if len(g) == 6 else g + (False,) for g in group]
+        src = HEAD + "".join(_fn("t_" + n, sp, p, ab, fl, ss) for (n, sp, p, ab, fl, ss) in group)
+        for (n, sp, p, ab, fl, ss) in group:
             out.append(Cond(n, src, "t_" + n, to,
                             f"input scaffolds {sp} ({'FASTA-style contig names/coordinates' if fl else 'distinct contig names'}); all contig and gap lengths, the rounding d of every scaffold end "
                             f"(|d| < 1 texel), floor(texel) tf >= 1 and its fractional flag symbolic and unbounded; "
                             + (f"scaffolds {[sp[i][0] for i in ab]} present or (if sub-texel) absent by a symbolic flag; " if ab else "")
-                            + ("every scaffold Painted" if p else "unpainted, untagged"),
+                            + ("every scaffold Painted" if p else "unpainted, untagged") + ("; every contig strand symbolic (+/-)" if ss else ""),
                             tier=tname, encodes=ENC))
     return out
 
